@@ -418,7 +418,7 @@ pub fn exec(sc: &Sc) -> Outcome {
 }
 
 pub fn scenarios(tier: Tier) -> Vec<Sc> {
-    let thorough = tier == Tier::Thorough;
+    let thorough = tier >= Tier::Thorough;
     let mut out = vec![];
     for s in 0..san_lists().len() {
         for mode in 0..8u8 {
@@ -434,6 +434,17 @@ pub fn scenarios(tier: Tier) -> Vec<Sc> {
     for pos in 0..32usize {
         for val in [0u8, 1, 9, 10, 15, 16, 99, 100, 127, 128, 255] {
             out.push(Sc::Digest { fill: 0x5a, pos, val });
+        }
+    }
+    if tier >= Tier::Deep {
+        // every value at every position (both textual formats are exercised by each scenario)
+        for pos in 0..32usize {
+            for val in 0..=255u8 {
+                out.push(Sc::Digest { fill: 0xa5, pos, val });
+                if val % 17 == 0 {
+                    out.push(Sc::Digest { fill: val, pos, val: !val });
+                }
+            }
         }
     }
     let b: [u8; 32] = std::array::from_fn(|i| (i * 9 + 100) as u8);
@@ -458,8 +469,13 @@ pub fn scenarios(tier: Tier) -> Vec<Sc> {
         for m in (n..n + if thorough { 6000 } else { 900 }).step_by(if thorough { 3 } else { 7 }) {
             out.push(Sc::BadFile { kind, mutation: m });
         }
+        if tier >= Tier::Deep {
+            for m in n..n + 12_000 {
+                out.push(Sc::BadFile { kind, mutation: m });
+            }
+        }
     }
-    out
+    dedup(out, |s| s.to_json().to_string())
 }
 
 pub fn run_check(args: &Args) -> i32 {
